@@ -21,4 +21,4 @@ META = {
 
 def run(ctx):
     import engine
-    engine.run_rules(ctx, [dt.r05_1, dt.r05_2, dt.r05_3, dt.r05_4, dt.r05_6, dt.r05_7, dt.r02_1, dt.r02_3, dt.r03_2, dt.r03_3, dt.r02_6, dt.r02_7, ras.r01_10])
+    engine.run_rules(ctx, [dt.r05_1, dt.r05_2, dt.r05_3, dt.r05_4, dt.r05_6, dt.r05_7, dt.r02_1, dt.r02_3, dt.r03_2, dt.r03_3, dt.r02_6, dt.r02_7, ras.r01_10, dt.r06_3])
